@@ -166,6 +166,10 @@ type Exec struct {
 	sprintfNames map[string]string
 	activeChild *Builder
 	callCount      map[string]int
+	closures       map[string]Val // closure token -> closure value (function + bindings)
+	closureOrder   []string
+	shiftAxiom     map[string]bool
+	tagTypes       map[int]types.Type
 	callOrd        map[*ssa.Call]int
 	callName       map[*ssa.Call]string
 	sortCount      int
@@ -610,6 +614,16 @@ func (x *Exec) subSlice(sink *Builder, s, lo, hi Term) Term {
 	es := sliceElem(s.Sort)
 	fn := "sl_shift_" + sanitize(string(es))
 	x.b.DeclFun(fn, []Sort{ArraySort(SInt, es), SInt}, ArraySort(SInt, es))
+	if x.con != nil && x.con.Hybrid {
+		if x.shiftAxiom == nil {
+			x.shiftAxiom = map[string]bool{}
+		}
+		if !x.shiftAxiom[fn] {
+			// with solver-side quantifiers the shifted view is axiomatised exactly
+			x.shiftAxiom[fn] = true
+			x.b.Assert(Term{fmt.Sprintf("(forall ((?a %s) (?lo Int) (?j Int)) (! (= (select (%s ?a ?lo) ?j) (select ?a (+ ?lo ?j))) :pattern ((select (%s ?a ?lo) ?j))))", ArraySort(SInt, es), fn, fn), SBool})
+		}
+	}
 	return MkSlice(App(ArraySort(SInt, es), fn, SlElems(s), lo), mk(SInt, "(- %s %s)", hi, lo))
 }
 
@@ -642,6 +656,10 @@ func (x *Exec) parseSpecTypeIn(text string, pkgPath string) specType {
 			return specType{SStr, types.NewSlice(types.Typ[types.Byte])}
 		}
 		return specType{SStr, types.Typ[types.String]}
+	case "strset":
+		return specType{ArraySort(SStr, SBool), nil}
+	case "intset":
+		return specType{ArraySort(SInt, SBool), nil}
 	case "uint64":
 		return specType{SInt, types.Typ[types.Uint64]}
 	case "int64":
@@ -665,6 +683,95 @@ func (x *Exec) parseSpecTypeIn(text string, pkgPath string) specType {
 	return specType{x.tm.SortOf(t), t}
 }
 
+// readHeap resolves an item of a "reads" clause (Struct.field, Struct.ghostfield or map[K]V, named in
+// package pkgPath) to the current value of that heap.
+func (x *Exec) readHeap(e *Env, item, pkgPath string) Term {
+	name, sort := x.readHeapNS(item, pkgPath)
+	return e.st.Heap(x, name, sort)
+}
+
+func (x *Exec) readHeapNS(item, pkgPath string) (string, Sort) {
+	if strings.HasPrefix(item, "map[") {
+		pt := x.parseSpecTypeIn(item, pkgPath)
+		mt, ok := pt.ty.Underlying().(*types.Map)
+		if !ok {
+			sfail("reads %s: not a map type", item)
+		}
+		return x.mapHeapName(mt), ArraySort(SInt, x.mapSort(mt))
+	}
+	k := strings.LastIndex(item, ".")
+	if k < 0 {
+		sfail("reads %s: want Struct.field or map[K]V", item)
+	}
+	pt := x.parseSpecTypeIn(item[:k], pkgPath)
+	n, st := namedStruct(pt.ty)
+	if n == nil || st == nil {
+		sfail("reads %s: %s is not a struct type", item, item[:k])
+	}
+	for i := 0; i < st.NumFields(); i++ {
+		if st.Field(i).Name() == item[k+1:] {
+			return x.fieldHeapName(n, st.Field(i)), ArraySort(SInt, x.tm.SortOf(st.Field(i).Type()))
+		}
+	}
+	if g, hn := x.ghostLookup(pt.ty, item[k+1:]); g != nil {
+		return hn, ArraySort(SInt, x.ghostSort(g).sort)
+	}
+	sfail("reads %s: no such field", item)
+	return "", ""
+}
+
+// assumeGenericAxiom asserts a definitional axiom for every value of the heaps that the
+// uninterpreted spec functions read (the heaps are universally quantified variables), so that it
+// applies in every state of the function. Only with solver-side quantifiers.
+func (x *Exec) assumeGenericAxiom(ax *Axiom) {
+	st := &State{reach: tTrue, locals: map[*ssa.Alloc]Term{}, heaps: map[string]Term{}}
+	var decls []string
+	var names []string
+	for n := range x.db.Specs {
+		names = append(names, n)
+	}
+	sort.Strings(names)
+	for _, n := range names {
+		sf := x.db.Specs[n]
+		for _, r := range sf.Reads {
+			hn, hs := x.readHeapNS(r, sf.PkgPath)
+			if _, ok := st.heaps[hn]; !ok {
+				v := Term{fmt.Sprintf("?h%d", len(decls)), hs}
+				st.heaps[hn] = v
+				decls = append(decls, fmt.Sprintf("(%s %s)", v.S, hs))
+			}
+		}
+	}
+	env := x.newEnv(map[string]TV{}, st, st)
+	env.canonQ = true
+	env.forceNative = true
+	env.cands = nil
+	env.facts = nil
+	env.sink = x.b.child()
+	env.assume = true
+	env.specPkg = ax.PkgPath
+	body := env.Bool(ax.Expr)
+	f := body.S
+	// only the heap variables the axiom mentions are bound
+	var used []string
+	for _, d := range decls {
+		v := d[1:strings.Index(d, " ")]
+		if regexp.MustCompile(regexp.QuoteMeta(v) + `\b`).MatchString(f) {
+			used = append(used, d)
+		}
+	}
+	decls = used
+	if len(decls) > 0 {
+		if strings.HasPrefix(body.S, "(forall (") {
+			// one quantifier over heaps and variables, so that the axiom's trigger covers both
+			f = "(forall (" + strings.Join(decls, " ") + " " + body.S[len("(forall ("):]
+		} else {
+			f = fmt.Sprintf("(forall (%s) %s)", strings.Join(decls, " "), body.S)
+		}
+	}
+	x.b.Assert(Term{f, SBool})
+}
+
 func (x *Exec) applyUninterp(e *Env, sf *SpecFn, args []TV) TV {
 	var sorts []Sort
 	var ts []Term
@@ -672,6 +779,12 @@ func (x *Exec) applyUninterp(e *Env, sf *SpecFn, args []TV) TV {
 		_ = i
 		sorts = append(sorts, a.T.Sort)
 		ts = append(ts, a.T)
+	}
+	// heap-dependent uninterpreted function: the heaps it reads are extra arguments
+	for _, r := range sf.Reads {
+		h := x.readHeap(e, r, sf.PkgPath)
+		sorts = append(sorts, h.Sort)
+		ts = append(ts, h)
 	}
 	rt := x.parseSpecTypeIn(sf.Ret, sf.PkgPath)
 	name := "u_" + sf.Name
@@ -870,6 +983,21 @@ func VerifyFunction(ld *Loader, db *ContractDB, fn *ssa.Function, con *Contract)
 	env := x.newEnv(x.paramVars(), x.entry, x.entry)
 	for _, r := range con.Requires {
 		x.assumeSpec(tTrue, r.Expr, env, "requires "+r.Src)
+	}
+	for _, an := range con.Uses {
+		ax := db.Axioms[an]
+		if ax == nil {
+			x.fail("uses %s: no such axiom", an)
+		}
+		if con.Hybrid {
+			x.assumeGenericAxiom(ax)
+			x.note("definitional axiom of a specification function (assumed, for every heap): " + ax.Name + ": " + ax.Src)
+			continue
+		}
+		aenv := x.newEnv(x.paramVars(), x.entry, x.entry)
+		aenv.specPkg = ax.PkgPath
+		x.assumeSpec(tTrue, ax.Expr, aenv, "axiom "+ax.Name+": "+ax.Src)
+		x.note("definitional axiom of a specification function (assumed, over the entry heap): " + ax.Name + ": " + ax.Src)
 	}
 	for _, r := range con.Assumes {
 		x.assumeSpec(tTrue, r.Expr, env, "assume "+r.Src)
